@@ -107,11 +107,12 @@ def leaf_tasks(schedule):
 
 
 def check_race(cfg, ch, res):
-    shape, lname, profile, off = cfg
+    shape, lname, profile, off = cfg[:4]
+    lp = len(cfg) > 4 and bool(cfg[4])  # line-level preemption of worker handlers by the executor thread
     schedule = shapes()[shape]()
     hosts, cores = LAYOUTS[lname]
     offsets = {"h2": off} if off else {}
-    r = racesim.run_race(schedule, hosts, cores, behaviour_for(profile), ch, offsets=offsets, horizon=HORIZON)
+    r = racesim.run_race(schedule, hosts, cores, behaviour_for(profile), ch, offsets=offsets, horizon=HORIZON, line_preempt=lp)
     names = [n for _t, n, _m in r.received]
     v = None
     leafs = leaf_tasks(schedule)
@@ -221,12 +222,14 @@ def check_race(cfg, ch, res):
         nontrivial_key=(cfg, tuple(ch.choices)) if any(ch.choices) else None,
         outcome_key=(shape, tuple(names), len(r.log), round(r.end_time, 3), v[0] if v else "ok"),
     )
+    if lp and any(t[0] == "preempt" and t[1].startswith("line:") for t in r.sim.trace):
+        res.count("executions_with_a_line_level_preemption")
     res.states += r.steps
     if v:
         res.violation(
             f"race:{v[0]}:{shape}",
             f"{shape} layout={lname} profile={profile} offset={off} deviations={ch.deviations} choices={[(i, c) for i, c in enumerate(ch.choices) if c]}: {v[1]}",
-            {"cfg": [shape, lname, profile, off], "choices": list(ch.choices)},
+            {"cfg": list(cfg), "choices": list(ch.choices)},
         )
 
 
@@ -239,6 +242,8 @@ def run(tier, seed):
     deep = [c for c in cfgs if c[0] == "S5a" and c[1] == "1x2" and c[2] == "uniform"] if tier == "quick" else [
         c for c in cfgs if c[0] in ("S3", "S4", "S5a", "S5b", "S5c", "S3x2") and c[1] in ("1x2", "2x1") and c[2] != "task-skewed"
     ]
+    # at bound 2 every line of a worker handler (esrally/driver/driver.py) is a preemption point for an executor step due at that instant
+    deep = [tuple(c) + (True,) for c in deep]
     r2 = explore.explore_parallel(check_race, deep, 2, seed=seed, max_exec_per_subtree=60 if tier == "quick" else 40000)
     res.merge(r2)
     res.extra["configurations"] = len(cfgs)
@@ -250,5 +255,5 @@ def run(tier, seed):
 def replay(data):
     res = Result()
     c = data["cfg"]
-    check_race((c[0], c[1], c[2], c[3]), explore.Chooser(tuple(data["choices"])), res)
+    check_race(tuple(c), explore.Chooser(tuple(data["choices"])), res)
     return [v for lst in res.violations.values() for v in lst]
